@@ -10,6 +10,7 @@ func init() {
 	vsRegister("C07.add_node", vhC07AddNode)
 	vsRegister("C07.delete_and_track", vhC07DeleteAndTrack)
 	vsRegister("C07.revalidation", vhC07Revalidation)
+	vsRegister("C07.stale_revalidation_answer", vhC07StaleRevalidationAnswer)
 }
 
 // vhShapes: bucket fillings (entries, replacements) explored: small ones and the full boundaries.
@@ -216,10 +217,54 @@ func vhC07Revalidation() {
 	}
 }
 
+// A revalidation answer for an entry that was removed while its check was in flight - also when a
+// node with the SAME id has been added again in the meantime (the table then holds a different
+// entry object for that id): the stale answer changes nothing and does not panic.
+//
+//verif:harness C07.stale_revalidation_answer unwind=80 timeout=60 wall=900/7200 noassumecheck
+//verif:use tablestep
+//verif:param SHAPES=6/7 BUCKETS=2/4
+func vhC07StaleRevalidationAnswer() {
+	vhInitDoneSymbolic = false
+	k, m := vhShape()
+	s := vhMakeTable(k, m)
+	b := s.b
+	// the orphan: removed from the table (on no revalidation list), arbitrary liveness state
+	var orphan *tableNode
+	readded := k > 0 && vsBool("same-id-added-again")
+	i := 0
+	if readded {
+		i = vsChoose("readded-entry", min(k, 2))
+		orphan = &tableNode{Node: vhTabNodeID(s.entries[i].ID())}
+	} else {
+		orphan = &tableNode{Node: vhTabNodeID(vhIDInBucket(s.selfID, s.bucketIndex, 100))}
+	}
+	orphan.livenessChecks = uint(vsU8("orphan-credit") & 7)
+	orphan.isValidatedLive = vsBool("orphan-verified")
+	responded := vsBool("responded")
+	var newRecord *enode.Node
+	if responded && vsBool("new-record") {
+		newRecord = vhTabNodeID(orphan.ID())
+	}
+	s.tab.revalidation.activeReq[orphan.ID()] = struct{}{}
+	s.tab.revalidation.handleResponse(s.tab, revalidationResponse{n: orphan, newRecord: newRecord, didRespond: responded})
+	s.vhCheckInvariant()
+	vsAssert(len(b.entries) == k && len(b.replacements) == m, "stale-answer-leaves-the-bucket-as-it-was")
+	for j, tn := range s.entries {
+		vsAssert(vhIndexOf(b.entries, tn) == j, "stale-answer-removes-or-reorders-no-entry")
+		vsAssert(tn.Node == s.records[j] && tn.isValidatedLive == s.live[j] && tn.livenessChecks == s.checks[j], "stale-answer-changes-no-entry")
+	}
+	vsAssert(orphan.revalList == nil, "removed-entry-is-not-put-back-on-a-list")
+	if readded {
+		vsCover("same-id-added-again")
+	}
+}
+
 // C18 uses the same steps: its clauses are the displacement / record / credit assertions above.
 
 func init() {
 	vsRegister("C18.add_step", vhC18AddStep)
+	vsRegister("C18.stale_revalidation_answer_step", vhC18StaleRevalidationAnswerStep)
 	vsRegister("C18.delete_and_track_step", vhC18DeleteAndTrackStep)
 	vsRegister("C18.revalidation_step", vhC18RevalidationStep)
 }
@@ -228,6 +273,11 @@ func init() {
 //verif:use tablestep
 //verif:param SHAPES=6/7 BUCKETS=2/4
 func vhC18AddStep() { vhC07AddNode() }
+
+//verif:harness C18.stale_revalidation_answer_step unwind=80 timeout=60 wall=900/7200 noassumecheck
+//verif:use tablestep
+//verif:param SHAPES=6/7 BUCKETS=2/4
+func vhC18StaleRevalidationAnswerStep() { vhC07StaleRevalidationAnswer() }
 
 //verif:harness C18.delete_and_track_step unwind=80 timeout=60 wall=900/7200 noassumecheck
 //verif:use tablestep
